@@ -92,7 +92,14 @@ def check(R, F):
     for fn, b, t, what in sites:
         if what != 'set_rcode(FORMERR)':
             continue
-        formerr_guards.append((fn, b, paths.direct_guards(fn, b), paths.dom_guards(fn, b)))
+        dg, ag = paths.direct_guards(fn, b), paths.dom_guards(fn, b)
+        formerr_guards.append((fn, b, dg, ag))
+        # a site controlled by a computed boolean (the result of a helper that was extracted, a `let bad = ..`) is
+        # controlled by each of the conditions under which that boolean takes the value tested
+        for g in dg:
+            for arm in paths.computed_bool_arms(g) or []:
+                conds = [v for c in arm for v in paths.guard_variants(c)]
+                formerr_guards.append((fn, b, conds, ag + conds))
     v0 = enum_variant(F, 'message::tsig::FromReadRrError', 'FormErr')
 
     def has(direct_re, trans_re=None, fnpath=HMWC):
